@@ -38,22 +38,22 @@ CLAIMS.update({
          'synchronous token free + deferred record free, one-shot ordering, TimerEventImpl enabled<=>registered, deadline base is a pure fresh clock reading, synchronous disable() before any deferred TimerEvent delete, every path of initialize()/destructor disables an enabled timer, repeat-count protocol replayed (r invocations then removal, 0 never; one-shot=1, persistent=0)', '§4 C02',
          'typestate dataflow (heap protocol) + CFG path rules + finite folding/replay of counter tests over clang AST/CFG'),
  'C06': ('write-arming invariant (running and queued => write event armed) decided at every state-changing site, remainder arithmetic shape of send(), '
-         'completion reported only where the queue is known empty (every reporting site, deferred closures included), receive-side commit/spill shape and commit-then-hand-over on every path, read/write result trichotomy and threshold/arming predicates by finite folding, destruction only through deferred tasks at the in-callback sites; plus the util::Buffer window arithmetic (C07 rules run as C06.B1-B4, the send/receive queues are Buffers)', '§4 C06, §10.6',
+         'completion reported only where the queue is known empty (every reporting site, deferred closures included), receive-side commit/spill shape and commit-then-hand-over on every path, read/write result trichotomy and threshold/arming predicates by finite folding, destruction only through deferred tasks at the in-callback sites, the close report reached from the read side only (who-may-call over the whole call graph); plus the util::Buffer window arithmetic (C07 rules run as C06.B1-B4, the send/receive queues are Buffers)', '§4 C06, §10.6',
          'typestate-style site rules + ownership (deferred delete) rules over clang AST/CFG'),
  'C12': ('A8 no exception escapes the receive path (call-graph scan with try map, presence proofs by reaching definitions), fail verdicts only on a complete '
          'line and cursor-update shapes, no dispatch after a close-marked request, single commit per request by construction, in-order flush shape, boundary agreement of every comparison with close_index, no read-side shutdown while responses are owed (teardown chain re-derived each run), no unbounded stack allocation on the receive path, per-request parser state re-initialised at each request, any transport shutdown only in the send-complete callback, receive threshold of the resumable parser folds to 0 or 1, consume/flush pairing in the server (parsed bytes consumed, one send per advance, sent-then-erased on every path), no reset of a stage-filled member inside its re-enterable stage, reserve/resize with an input-derived count counted as a thrower', '§4 C12',
          'exception-escape analysis + reaching definitions + CFG path rules over clang AST/CFG'),
  'C13': ('A8 no exception escapes the input path (telnet, raw TCP, terminal), no access to an empty history, deferred tasks capture tokens not pooled pointers, '
-         'cursor-update guards, prompt/history-cap shape, telnet framing length tests, bounded history recursion, no unbounded stack allocation (VLA/alloca) on the input path; range/presence proofs require the container to be unchanged between proof and use; key decoding transition table read off the scanner vs the xterm/VT220 reference encodings, key-result to handler dispatch table, no implicit narrowing of strtol-family results (A9g), receive thresholds of the three front ends fold to 0 or 1, telnet text marked read is delivered on every path to every exit, key-scanner typestate across strings, pointers into the telnet buffer formed only under a matching length test, text branch iff at least one byte, history navigation replayed over a grid of lengths and positions, every editing handler replayed against a reference line editor (line, cursor, std::string preconditions), Enter leaves a fresh line, client/session maps lose an entry only together with the connection, one end per work list in the tree walk', '§4 C13, §10.7',
+         'cursor-update guards, prompt/history-cap shape, telnet framing length tests, bounded history recursion, no unbounded stack allocation (VLA/alloca) on the input path; range/presence proofs require the container to be unchanged between proof and use; key decoding transition table read off the scanner vs the xterm/VT220 reference encodings, key-result to handler dispatch table (the stop result included), no implicit narrowing of strtol-family results (A9g), receive thresholds of the three front ends fold to 0 or 1, telnet text marked read is delivered on every path to every exit, key-scanner typestate across strings, pointers into the telnet buffer formed only under a matching length test, text branch iff at least one byte, history navigation replayed over a grid of lengths and positions, every editing handler replayed against a reference line editor (line, cursor, std::string preconditions), Enter leaves a fresh line, client/session maps lose an entry only together with the connection, one end per work list in the tree walk', '§4 C13, §10.7',
          'exception-escape analysis + ownership/deferred-capture + CFG path rules over clang AST/CFG'),
  'C14': ('A8 framing/dispatch never throw (parse only inside CatchThrow, typed json access under type tests), no narrow length sum, fetchNoCopy result proven '
          'non-null or tested, resumable-framing return discipline, complete-then-erase with sibling agreement, no container handle live across the user callback, '
-         'bounded recursion, FindEndPos scan guards, TimeoutMonitor count/timer protocol (count changes only with the ring, timer disabled only on a fresh zero test, nothing decided from a pre-callback value), no unbounded stack allocation, no narrow integer get<T>() without a range test (A9g for JSON), owner re-installs the monitor callback on re-initialisation, framing state reset on consuming/failing exits, encoder/decoder agreement on every refusal (reasons classified, length bounds folded from both guards), no scanner error value answered with "need more data", exact completeness boundaries of the header framing (linear proofs) and of the raw framing against the scanner\'s contract', '§4 C14, §10.3 D33', 'exception-escape + input-hardening + re-entrancy rules over clang AST/CFG'),
+         'bounded recursion, FindEndPos scan guards, TimeoutMonitor count/timer protocol (count changes only with the ring, timer disabled only on a fresh zero test, nothing decided from a pre-callback value), no unbounded stack allocation, no narrow integer get<T>() without a range test (A9g for JSON), owner re-installs the monitor callback on re-initialisation, framing state reset on consuming/failing exits, encoder/decoder agreement on every refusal (reasons classified, length bounds folded from both guards), no scanner error value answered with "need more data", exact completeness boundaries of the header framing (linear proofs) and of the raw framing against the scanner\'s contract, request id counter only ever incremented', '§4 C14, §10.3 D33', 'exception-escape + input-hardening + re-entrancy rules over clang AST/CFG'),
  'C15': ('every datagram-filled local initialised or status-checked, reported values control dependent on successful reads, bounded compression recursion, '
          'deserializer bounds-check/width/advance agreement over all readers, complete-then-erase of lookups, no exception on the datagram path, TimeoutMonitor count/timer protocol (both sides), no unbounded stack allocation, receive length bounded by the receive buffer, reported Result fresh per datagram, no deserializer status dropped on the datagram path, fresh request ids, registry completeness (request registers, deleteRequest erases), record/result discipline (payload read after the length field, every type branch consumes, byte order restored, non-success status on error paths), writes into fixed local arrays proven in bounds, RFC 1035 wire-format conformance of the parser\'s own expressions by finite-domain folding (reply bit, rcode, terminator, compression tag/target, exact trip counts), recursion bound at most 1024 levels', '§4 C15',
          'input-hardening (def/use + guard) rules + sibling agreement over clang AST/CFG'),
  'C16': ('re-entrancy counter bracket around every user function (abstract counter dataflow), state writes only behind the re-entrancy test, transition step '
-         'order, delegation/handler/route precedence with first-match scan shape, enter/exit and sub-machine start/stop pairing, definition calls rejected while running, transition target read from the live route after the guard/action callbacks (late binding)', '§4 C16',
+         'order, delegation/handler/route precedence with first-match scan shape, enter/exit and sub-machine start/stop pairing, definition calls rejected while running, transition target read from the live route after the guard/action callbacks (late binding), definition semantics (re-registration replaces by assignment, the shared built-in terminal state is referred to by run() only)', '§4 C16',
          'counter dataflow + CFG order/pairing rules over clang AST/CFG'),
 })
 CLAIMS.update({
@@ -64,7 +64,7 @@ CLAIMS.update({
          'notifications only as cancellable deferred tasks cancelled by stop/reset/destructor, base lifecycle gates and single onFinal, held-back child results in '
          'serial composites, stop propagation not filtered by a running-test, reset loops range over all children, the held-back test answers \'act\' only while running, leaf resource matrix (events an action arms are disarmed on stop/reset/pause), reset-before-rerun, child look-ups only under i < size and child loops over exactly 0..size-1 (finite folding), repeat count-down replayed, replay fidelity of held-back results (closure re-enters the handler with its own unmodified parameters, nothing applied before the held-back test), every run armed with the configured time-out', '§4 C17', 'sibling-agreement matrix + must-call/path rules over clang AST/CFG'),
  'C18': ('waiters re-register before every wait, wake-up conditional only on the waiter queue, cancellation test between wait and resource, broadcast/condition '
-         'post shapes, scheduler cleanup/switch/schedule shapes, every routine-destroying site resumes the joiner, cancel exit withdraws the waiter token and passes on a wake-up addressed to it, success exit only through a re-test of the resource after wait(), a "post already pending" flag believed only where the posted function clears it, semaphore availability predicate (must-fact count_ >= 1 at the take, folded edges; pass-on iff available)', '§4 C18', 'CFG path rules over clang AST/CFG (templates via explicit instantiation TU)'),
+         'post shapes, scheduler cleanup/switch/schedule shapes, every routine-destroying site resumes the joiner, cancel exit withdraws the waiter token and passes on a wake-up addressed to it, success exit only through a re-test of the resource after wait(), a "post already pending" flag believed only where the posted function clears it, semaphore availability predicate (must-fact count_ >= 1 at the take, folded edges; pass-on iff available), no routine pointer looked up before a context switch dereferenced after it', '§4 C18', 'CFG path rules over clang AST/CFG (templates via explicit instantiation TU)'),
  'C19': ('constant tables equal tables generated from the standards\' formulae (Base64, CRC-16/32, AES S-box/inverse/Rcon, MD5 constants/shifts/order/state/padding, '
          'scalable-integer ranges), every constant-table subscript in range by interval evaluation, serializer/deserializer width and byte-order agreement, '
          'capacity test before stores, digit validation, no carry lost in the 16-bit one\'s-complement checksum (interval abstract interpretation of the accumulator), AES round/permutation/matrix structure vs FIPS-197 (index expressions evaluated over finite domains), MD5::update width agreement (carry test and block loop) and single input cursor, no wrapped remaining-length re-read in the CRC/checksum loops, residue-class walk of the Base64 decoding loop (every store offset below the capacity DecodeLength guarantees for that residue), linear bound proofs 0 <= index <= size-1 for every indexed access through a (ptr,size) buffer, state-machine walk of the Base64 encoder against the folded EncodeLength, cached-pointer freshness in the Serializer, no lenient library number parser in a digit decoder', '§4 C19, §10.3 D30, §10.7', 'constant-table conformance + interval evaluation/abstract interpretation + sibling agreement over clang AST/CFG'),
